@@ -142,7 +142,12 @@ channel_release(struct channel* self)
 void
 channel_accept_writes(struct channel* self, uint32_t tf)
 {
+    // The flag is part of the writer's wait condition: change it under the
+    // lock so that a writer between its check and its wait cannot miss the
+    // notification.
+    lock_acquire(&self->lock);
     self->is_accepting_writes = tf;
+    lock_release(&self->lock);
     condition_variable_notify_all(&self->notify_space_available);
 }
 
